@@ -123,6 +123,11 @@ def mask_truth(M, world):
             return None
         rng = _range_of(x, world)
         if rng is None:
+            if c == 0 and op in ("Eq", "NotEq"):
+                # `mask != 0` (np.flatnonzero(mask) is evaluated to that), `mask == False`
+                r = mask_truth(x, world)
+                if r is not None:
+                    return r if op == "NotEq" or r == MIXED else (not r)
             return None
         return _cmp_on(rng, op, c)
     if name in ("call:.astype", "call:bool", "call:np.asarray") and args:
